@@ -17,7 +17,7 @@ from fractions import Fraction
 
 from ..core.tree import AnalysisError
 from ..core.constfold import Folder
-from ..core.astutil import walk_no_nested, call_name, short, src
+from ..core.astutil import walk_no_nested, call_name, short, src, closure, resolve_local
 from ..engines.tables import HEX2, HEX4, parity_ok, require_dict
 from ..engines.symeval import SymEvaluator, Poly, eval_poly
 from ..spec import cea608
@@ -211,17 +211,32 @@ def preroll(ctx, report, folder):
     fn = ctx.index.get_function(SCC, "SCCWriter.write")
     report.covered(fn)
     # literal words written around each payload in PASS 3
-    lit_words = 0
-    loop3 = None
-    for n in walk_no_nested(fn.node):
-        if isinstance(n, ast.For) and any(isinstance(s, ast.AugAssign) and "_format_timestamp" in src(s) for s in n.body):
-            loop3 = n
-    if loop3 is None:
-        raise AnalysisError("SCCWriter.write: emission loop not found")
+    # the statement list (in write() or a helper it calls) that emits the line starting with the
+    # caption's start timecode: its unconditional statements carry the literal command words
+    def blocks(body):
+        yield body
+        for st in body:
+            for name in ("body", "orelse", "finalbody"):
+                b_ = getattr(st, name, None)
+                if isinstance(b_, list) and b_ and isinstance(b_[0], ast.stmt) \
+                        and not isinstance(st, (ast.FunctionDef, ast.ClassDef)):
+                    yield from blocks(b_)
+
+    def simple(st):
+        return isinstance(st, (ast.Assign, ast.AugAssign, ast.Return, ast.Expr))
+    cands = []
+    for f2 in closure(ctx.index, fn):
+        for blk in blocks(f2.node.body):
+            if any(simple(st) and "_format_timestamp" in src(st) for st in blk):
+                cands.append((f2, blk))
+    if not cands or len({f2.key for f2, _ in cands}) != 1:
+        raise AnalysisError(f"SCCWriter.write: emission of the timecode line not recognised ({len(cands)} candidates)")
+    f2, blk = cands[0]
+    report.covered(f2)
     per_caption = []
-    for st in loop3.body:
-        if isinstance(st, ast.AugAssign) and isinstance(st.value, ast.Constant) and isinstance(st.value.value, str):
-            per_caption.append(st.value.value)
+    for st in blk:
+        if simple(st):
+            per_caption += [c.value for c in ast.walk(st) if isinstance(c, ast.Constant) and isinstance(c.value, str)]
     lit_words = sum(len([w for w in s.split() if re.fullmatch(r"[0-9a-f]{4}", w)]) for s in per_caption)
     assigns = {}
     for n in walk_no_nested(fn.node):
